@@ -6,6 +6,7 @@ returns a real file object of the class under test positioned at frame `pos` *wi
 constructor: the fields the real __init__ sets are installed directly and the in-memory file is
 positioned at the first line of frame `pos` — that pair is the representation invariant of the cursor.
 """
+import vtlib.xhfix  # noqa: F401  (CrossHair configuration; see module docstring)
 import io
 
 from crosshair import realize
@@ -16,6 +17,8 @@ import mdtraj.formats.mdcrd as _mdcrd
 import mdtraj.formats.xyzfile as _xyz
 
 N_ATOMS = 3
+_MDCRDCls, _XYZCls, _LMPCls, _ARCCls = (_mdcrd.MDCRDTrajectoryFile, _xyz.XYZTrajectoryFile, _lmp.LAMMPSTrajectoryFile,
+                                        _arc.ArcTrajectoryFile)   # captured: harnesses may rebind the module globals
 MAXF = 8
 
 
@@ -74,7 +77,7 @@ def mk_mdcrd(total, pos, box=False):
     frames = _MDCRD[bool(box)][:total]
     st = Store(_TITLE + b"".join(frames), True)
     _mdcrd.open = st.open
-    f = object.__new__(_mdcrd.MDCRDTrajectoryFile)
+    f = object.__new__(_MDCRDCls)
     f._is_open, f._filename, f._n_atoms, f._mode, f._w_has_box = True, "mem.mdcrd", N_ATOMS, "r", None
     f._has_box = "detect"
     f._fh = st.open("mem.mdcrd", "rb")
@@ -90,7 +93,7 @@ def mk_xyz(total, pos):
     frames = _XYZ[:total]
     st = Store("".join(frames), False)
     _xyz.open = st.open
-    f = object.__new__(_xyz.XYZTrajectoryFile)
+    f = object.__new__(_XYZCls)
     f._is_open, f._filename, f._mode, f._n_atoms, f._n_frames = True, "mem.xyz", "r", None, None
     f._fh = st.open("mem.xyz")
     f._fh.seek(sum(len(x) for x in frames[:pos]))
@@ -105,7 +108,7 @@ def mk_lammpstrj(total, pos):
     frames = _LMP[:total]
     st = Store("".join(frames), False)
     _lmp.open = st.open
-    f = object.__new__(_lmp.LAMMPSTrajectoryFile)
+    f = object.__new__(_LMPCls)
     f._is_open, f._filename, f._mode, f._n_atoms = True, "mem.lammpstrj", "r", None
     f._fh = st.open("mem.lammpstrj")
     f._fh.seek(sum(len(x) for x in frames[:pos]))
@@ -122,7 +125,7 @@ def mk_arc(total, pos):
     frames = _ARC[:total]
     st = Store("".join(frames), False)
     _arc.open = st.open
-    f = object.__new__(_arc.ArcTrajectoryFile)
+    f = object.__new__(_ARCCls)
     f._is_open, f._filename, f._mode, f.topology = True, "mem.arc", "r", None
     f._fh = st.open("mem.arc")
     f._fh.seek(sum(len(x) for x in frames[:pos]))
